@@ -63,7 +63,8 @@ def run(ctx):
         bs, ml = t.BS[v], t.MACLEN[v]
         kbpk = rng.randbytes(t.KBPK_SIZES[v][-1])
         for alg in t.ALNUM:
-            h = tr31.Header(v, "P0", alg, "E", "00", "N")
+            # the field values as equal-but-not-identical strings (a str subclass): nothing may hinge on `is`
+            h = tr31.Header(fw._Str(v), fw._Str("P0"), fw._Str(alg), "E", "00", "N")
             hl = len(str(h))
             for mask in (None, 40):
                 for kl in (0, 5, 16, 24, 33, 64):
